@@ -322,7 +322,18 @@ func readBound(w *drv.World, p *drv.Plan, st map[string]int) *drv.Violation {
 				}
 			}
 		}
-		for i := -1; i <= n; i++ {
+		ranks := make([]int, 0, n+2)
+		if n <= 600 {
+			for i := -1; i <= n; i++ {
+				ranks = append(ranks, i)
+			}
+		} else {
+			ranks = append(ranks, -1, 0, 1, n/2, n-2, n-1, n)
+			for i := 0; i < 60; i++ {
+				ranks = append(ranks, r.Intn(n))
+			}
+		}
+		for _, i := range ranks {
 			i := i
 			if v := measure("GetByIndex", 2*ht+2, func() { _, _, _ = it.GetByIndex(int64(i)) }); v != nil {
 				return v
@@ -332,7 +343,64 @@ func readBound(w *drv.World, p *drv.Plan, st map[string]int) *drv.Violation {
 	return nil
 }
 
+// execC11Tall measures the read bounds on a tall, packed tree (thousands of
+// ascending keys): the proof bound 10h+10 only becomes tight from height 12 on.
+func execC11Tall(p *drv.Plan) *Out {
+	st := map[string]int{}
+	out := &Out{Evals: 1, Probes: map[string]int{"mode.tall": 1}, Stats: map[string]int{}}
+	cfg := p.Config
+	cfg.InitVer, cfg.InitMode, cfg.Backend = 0, "", "simdb"
+	w := drv.NewWorld(cfg)
+	if err := w.Open(); err != nil {
+		return out
+	}
+	defer w.Cleanup()
+	r := drv.SubRand(p, "c11-tall")
+	n := r.Pick(4096, 5000, 8192)
+	desc := r.Chance(1, 3)
+	for i := 0; i < n; i++ {
+		j := i
+		if desc {
+			j = n - 1 - i
+		}
+		k := []byte(fmt.Sprintf("t%06d", j))
+		v := []byte(fmt.Sprintf("v%d", i))
+		w.Tree.Set(k, v)
+		w.M.Set(k, v)
+		w.T.Set(k, v)
+		if i == n/2 {
+			w.Tree.SaveVersion()
+			w.M.Commit()
+			w.T.Commit()
+		}
+		if i%(n/24) == 0 || i == n-1 || i == 0 {
+			w.Universe[string(k)] = true
+		}
+	}
+	w.Tree.SaveVersion()
+	w.M.Commit()
+	w.T.Commit()
+	out.Sample = fmt.Sprintf("tall: %d keys inserted in %s order, two versions, read bounds measured on a sample of keys and ranks", n, map[bool]string{true: "descending", false: "ascending"}[desc])
+	if v := w.AuditShape(); v != nil {
+		out.Violations = append(out.Violations, v)
+		return out
+	}
+	st["shape_audits"]++
+	if v := readBound(w, p, st); v != nil {
+		out.Violations = append(out.Violations, v)
+	}
+	for k, v := range st {
+		out.Stats[k] = v
+	}
+	out.Stats["tall_height"] = int(w.Tree.Height())
+	out.NonTrivial = st["lookups_measured"] > 10
+	return out
+}
+
 func execC11(p *drv.Plan) *Out {
+	if p.Mode == "tall" {
+		return execC11Tall(p)
+	}
 	st := map[string]int{}
 	hooks := drv.Hooks{
 		Prop: "C11",
@@ -481,7 +549,12 @@ func init() {
 	Register(&Check{ID: "C11", Level: "exploration", Engine: "drv", QuickRuns: 1600, ThoroughS: 480, Assumptions: assume, Components: stdComponents,
 		Rule: "one evaluation = one history with ascending/descending/alternating/random insertion order and removals; after every step Height/Size of the working tree and of every retained version equal R2's and satisfy h <= 1.4405*log2(n+2); rank/select are checked as inverse against R1; at the end a cache-less fresh handle is opened and the number of s-space storage reads of every Get/GetWithIndex/Has/GetByIndex (<=2h+2) and GetProof (<=10h+10) is measured at the storage seam for every probe key and rank; non-trivial = >=3 shape audits on a tree with >=2 leaves",
 		Gen: func(seed uint64, run int, tier string) *drv.Plan {
-			return genPlan("C11", seed, run, c11Bias(tier, sim.Sub(seed, "C11-order", run)))
+			p := genPlan("C11", seed, run, c11Bias(tier, sim.Sub(seed, "C11-order", run)))
+			if run%200 == 42 {
+				p.Mode = "tall"
+				p.Steps = nil
+			}
+			return p
 		}, Exec: execC11})
 	Register(&Check{ID: "C12", Level: "exploration", Engine: "drv", QuickRuns: 3000, ThoroughS: 480, Assumptions: assume, Components: stdComponents,
 		Rule: "one evaluation = one crash-free history with synchronous pruning; after every commit/prune/rollback/reopen/import the whole simulated disk is scanned and decoded with the independent codec: stored node identities (version, hash) must equal the union of R2's reachable sets of the retained versions (no missing, no extra, no duplicate node), child links must resolve to the right nodes, exactly one root marker per retained version and none for deleted ones, (v,0)/(v,1) never coexist, legacy spaces empty, fast index = latest pairs; non-trivial = >=2 audits after >=1 commit",
